@@ -66,9 +66,11 @@ func (w *vBufWriter) Write(p []byte) (int, error) {
 
 // zStreamValue: menu of values; shared is an object also sent by other messages of the same stream.
 // zSmall: an arbitrary int32; in the quick tier restricted to one wire form (forms are C07's subject).
+var zSmallOneForm bool // set by a harness whose thorough tier is deep in another dimension
+
 func zSmall(tag string) int32 {
 	x := vInt32(tag)
-	if vTier() == 0 {
+	if vTier() == 0 || zSmallOneForm {
 		vAssume(x >= 0)
 		vAssume(x <= 40)
 	}
@@ -204,9 +206,14 @@ func zStreamEq(kind int, a, b interface{}) bool {
 // through one decoder (or serializer) on a reader without read-ahead; each read consumes exactly the bytes
 // of one value as delimited by the reference parser, and returns a documented Go type.
 func H_C06_stream() {
+	// quick: two values, payload ints in one wire form. thorough: either two values with payload ints of every form,
+	// or three values (the third from the kinds that refer back or are referred to) with one-form ints; the full
+	// product (three values x every form each) is about 125 times larger and did not finish within the wall limit
 	n := 2
-	if vTier() == 1 {
+	zSmallOneForm = false
+	if vTier() == 1 && vChoice("depth", 2) == 1 {
 		n = 3
+		zSmallOneForm = true
 	}
 	shared := &ZInner{N: 42, S: "shared"}
 	tm, nm := vExtractAll(&ZOuter{P: &ZInner{}}, &ZEmpty{}, &ZFold{}, []int32{}, map[string]int32{"k": 1}, zManyClasses(19, 0, -1))
